@@ -56,6 +56,11 @@ type phase struct {
 	// desired state, so the fixed-point clause (I4) does not apply; the phase runs a fixed
 	// number of reconciles instead.
 	Unsteady bool `json:"unsteady,omitempty"`
+	// UserDelete: composition resource names whose (still desired) composed resource the user
+	// deletes when the phase begins; with a provider finalizer it lingers in Terminating state.
+	// While it exists no second resource may appear for the name; once it is gone a new one -
+	// under a new generated name - is legitimate.
+	UserDelete []string `json:"userDelete,omitempty"`
 }
 
 // markUnsteady derives Unsteady for P&T scenarios from the scenario alone: a template with a
@@ -124,6 +129,16 @@ func providerStep(w *sim.World) {
 }
 
 func (s *scenario) alwaysDesired() map[string]bool {
+	out := s.alwaysDesiredRaw()
+	for _, p := range s.Phases {
+		for _, n := range p.UserDelete {
+			delete(out, n)
+		}
+	}
+	return out
+}
+
+func (s *scenario) alwaysDesiredRaw() map[string]bool {
 	out := map[string]bool{}
 	if s.Mode == "pt" {
 		for _, t := range s.Templates {
@@ -186,7 +201,10 @@ func baseScenarios() []scenario {
 	ta, tb, tc := ptTemplate("a", "NopA", "1", optPatch), ptTemplate("b", "NopA", "2", nil), ptTemplate("c", "NopB", "3", nil)
 	return []scenario{
 		{Name: "pipe-same-name-three-kinds", Mode: "pipeline", Steps: 1, Phases: []phase{
-			{Desired: []resSpec{{Name: "a", Kind: "NopA", Val: "1", FixedName: "app"}, {Name: "c", Kind: "NopB", Val: "2", FixedName: "app"}, {Name: "e", Kind: "NopC", Val: "3", FixedName: "app"}, {Name: "f", Kind: "NopD", Val: "4", FixedName: "app"}}}}},
+			{Desired: []resSpec{{Name: "a", Kind: "NopA", Val: "1", FixedName: "app"}, {Name: "c", Kind: "NopB", Val: "2", FixedName: "app"}, {Name: "e", Kind: "NopC", Val: "3", FixedName: "app"}, {Name: "f", Kind: "NopD", Val: "4", FixedName: "app"}}},
+			// two of the same-named resources are dropped while their namesakes stay
+			{Desired: []resSpec{{Name: "a", Kind: "NopA", Val: "1", FixedName: "app"}, {Name: "e", Kind: "NopC", Val: "3", FixedName: "app"}}},
+			{Desired: []resSpec{{Name: "a", Kind: "NopA", Val: "1", FixedName: "app"}, {Name: "c", Kind: "NopB", Val: "2", FixedName: "app"}, {Name: "e", Kind: "NopC", Val: "3", FixedName: "app"}}}}},
 		// six resources that never become ready: the XR's conditions (which name unready
 		// resources) must be a fixed point too
 		{Name: "pipe-six-unready", Mode: "pipeline", Steps: 1, Phases: []phase{{Desired: []resSpec{
@@ -210,6 +228,12 @@ func baseScenarios() []scenario {
 			Phases: []phase{{}, {Templates: []map[string]any{ta, tc}}, {Templates: []map[string]any{ta, tb, tc}}}},
 		{Name: "pt-template-removed-provider", Mode: "pt", Provider: true, Templates: []map[string]any{ta, tb, tc},
 			Phases: []phase{{}, {Templates: []map[string]any{tb}}}},
+		// the user deletes a composed resource that is still desired; its provider's finalizer keeps
+		// it around (Terminating) for one more step
+		{Name: "pt-user-deletes-composed-provider", Mode: "pt", Provider: true, Templates: []map[string]any{ta, tb},
+			Phases: []phase{{}, {UserDelete: []string{"a"}}}},
+		{Name: "pipe-user-deletes-composed-provider", Mode: "pipeline", Steps: 1, Provider: true,
+			Phases: []phase{{Desired: []resSpec{a, b}}, {Desired: []resSpec{a, b}, UserDelete: []string{"a"}}}},
 		{Name: "pipe-fixed2", Mode: "pipeline", Steps: 1, Phases: []phase{{Desired: []resSpec{a, b}}}},
 		{Name: "pipe-grow", Mode: "pipeline", Steps: 1, Phases: []phase{{Desired: []resSpec{a}}, {Desired: []resSpec{a, b, c}}}},
 		{Name: "pipe-shrink", Mode: "pipeline", Steps: 1, Phases: []phase{{Desired: []resSpec{a, b, c}}, {Desired: []resSpec{a}}}},
@@ -377,6 +401,13 @@ func (r *runner) buildWorld(sc *scenario, seed uint64) (*sim.World, map[string]a
 
 func (r *runner) enterPhase(w *sim.World, sc *scenario, p int) {
 	r.phase.Store(int32(p))
+	for _, n := range sc.Phases[p].UserDelete {
+		for _, o := range w.Snapshot() {
+			if sim.Str(o, "metadata", "annotations", annResName) == n && strings.HasSuffix(sim.Str(o, "apiVersion"), "nop.ex.org/v1") {
+				_ = w.Client("user").Delete(nil, &unstructured.Unstructured{Object: o}) //nolint:staticcheck // ctx unused
+			}
+		}
+	}
 	if ts := sc.Phases[p].Templates; ts != nil {
 		comp := &unstructured.Unstructured{Object: w.GetObj(sim.Key{Group: "apiextensions.crossplane.io", Kind: "Composition", Name: "comp"})}
 		var rs []any
@@ -415,6 +446,8 @@ type monitor struct {
 	viol     []string
 	violKeys []string
 	checks   int
+	// userDeleted: composed objects whose deletion somebody other than the XR controller asked for
+	userDeleted map[sim.Key]bool
 }
 
 func composedOf(o map[string]any, xrUID string) (resName string, ok bool) {
@@ -464,6 +497,27 @@ func (m *monitor) hook(v *sim.View, ev *sim.Event) {
 	for rn, ids := range perName {
 		if len(ids) > 1 {
 			m.add("I2-duplicate-composed-resource", fmt.Sprintf("after %s: %d live composed resources for name %q: %v", ev.Short(), len(ids), rn, ids))
+		}
+	}
+	// I2b: a composed resource the USER deleted and that is still in the store (waiting for a
+	// finalizer) is still the composed resource of its name: no replacement is created next to it
+	if ev.Verb == "delete" && ev.Actor != "xr" && ev.After != nil {
+		if _, ok := composedOf(ev.After, m.xrUID); ok {
+			if m.userDeleted == nil {
+				m.userDeleted = map[sim.Key]bool{}
+			}
+			m.userDeleted[ev.Key] = true
+		}
+	}
+	if ev.Before == nil && ev.After != nil && len(m.userDeleted) > 0 {
+		if rn, ok := composedOf(ev.After, m.xrUID); ok {
+			for k := range m.userDeleted {
+				if o := v.Get(k); o != nil && k != ev.Key {
+					if orn, ok := composedOf(o, m.xrUID); ok && orn == rn {
+						m.add("I2-replacement-created-next-to-terminating-resource", fmt.Sprintf("after %s: a second composed resource for name %q was created while %s (deleted by the user, waiting for its finalizer) still exists", ev.Short(), rn, k))
+					}
+				}
+			}
 		}
 	}
 	// I3 bookkeeping: creations
